@@ -206,6 +206,9 @@ func c01one(t *testing.T, out *verifh.Out, r *rand.Rand, dir string) {
 		tree.Put("optimization_nodes/a0", optimization.DCSState{Status: optimization.StatusEnabled})
 		tree.Put("optimization_nodes/"+relaxed, optimization.DCSState{Status: optimization.StatusEnabled})
 		wd.Nodes[relaxed].FlushLog, wd.Nodes[relaxed].SyncBinlog = 2, 1000
+		if r.Intn(3) == 0 { // … and restoring it fails once: it must stay registered (and the procedure must not go on)
+			wd.AddFault(relaxed, []string{"set_flush", "set_sync_binlog"}[r.Intn(2)], 1, "err:1105")
+		}
 	}
 	um := wd.Nodes[master].UUID
 	u2 := "77777777-0000-0000-0000-000000000077"
@@ -323,7 +326,7 @@ func c01one(t *testing.T, out *verifh.Out, r *rand.Rand, dir string) {
 		}
 	case 0:
 		ops := []string{"set_ro_super", "stop_io", "replica_status", "gtid_executed", "set_online", "stop_replica", "change_source", "start_replica",
-			"reset_replica_all", "set_writable", "is_readonly", "events", "ss_status"}
+			"reset_replica_all", "set_writable", "is_readonly", "events", "ss_status", "set_flush", "set_sync_binlog"}
 		modes := []string{"err:1105", "err:1105", "hang", "lost:1105", "err:1205"}
 		fh, fo, fm := hosts[r.Intn(n)], ops[r.Intn(len(ops))], modes[r.Intn(len(modes))]
 		nth := r.Intn(3) // 0 = every time (retries do not help), 1 / 2 = that occurrence only
